@@ -125,7 +125,9 @@ func runFileSink(rc *RunCtx, prop string, crash bool, faults bool) {
 	}
 
 	// decoy files outside the sink's name space must survive
-	decoys := []string{"other.log", base + ext + ".bak", base + "X-1" + ext + ".old", "zz-" + base + "-5" + ext}
+	// (the last one is a sibling's log, e.g. app-audit.log beside app.log: the prune glob <base>-*<ext>
+	// matches it, but it is not one of the sink's <base>-<timestamp><ext> files)
+	decoys := []string{"other.log", base + ext + ".bak", base + "X-1" + ext + ".old", "zz-" + base + "-5" + ext, base + "-audit" + ext}
 	preDecoys := tp.Choose(2, "decoys") == 0
 	if preDecoys {
 		os.MkdirAll(logDir, 0o700)
@@ -537,6 +539,12 @@ func checkRetention(rc *RunCtx, sim *simrt.Sim, sink *el.FileSink, logDir, base,
 			removedBySink[filepath.Base(op.Path)] = true
 		}
 	}
+	for name := range removedBySink {
+		ts := strings.TrimSuffix(strings.TrimPrefix(name, base+"-"), ext)
+		if _, err := strconv.ParseInt(ts, 10, 64); err != nil || !strings.HasPrefix(name, base+"-") || !strings.HasSuffix(name, ext) {
+			rc.Failf("C08.lost-file", "foreign", "the sink deleted %q, which is not one of its own %s-<timestamp>%s files: a sibling sink logging there loses every event it acknowledged", name, base, ext)
+		}
+	}
 	seenPresentInNamespace := false
 	for _, fi := range files {
 		name, ok := present[fi.ino]
@@ -727,9 +735,15 @@ func (m *fsModel) checkDir(when string, justRotated bool) {
 	activeName := filepath.Base(active)
 	ents, _ := os.ReadDir(m.logDir)
 	var stamped []string
+	foreign := map[string]bool{}
+	if m.preDecoys {
+		for _, d := range m.decoys {
+			foreign[d] = true
+		}
+	}
 	for _, en := range ents {
 		ok, _ := filepath.Match(m.pattern(), en.Name())
-		if ok {
+		if ok && !foreign[en.Name()] {
 			stamped = append(stamped, en.Name())
 		}
 	}
@@ -753,7 +767,7 @@ func (m *fsModel) checkDir(when string, justRotated bool) {
 		if ok, _ := filepath.Match(m.pattern(), name); ok {
 			isSink = true
 		}
-		if !isSink {
+		if !isSink || foreign[name] {
 			continue
 		}
 		info, err := en.Info()
@@ -833,8 +847,8 @@ func (m *fsModel) checkDir(when string, justRotated bool) {
 			continue
 		}
 		name := filepath.Base(op.Path)
-		if ok, _ := filepath.Match(m.pattern(), name); !ok {
-			m.fail("retention", "outside-namespace", "%s: the sink removed %q, which is outside its name space %s", when, name, m.pattern())
+		if ok, _ := filepath.Match(m.pattern(), name); !ok || foreign[name] {
+			m.fail("retention", "outside-namespace", "%s: the sink removed %q, which is not one of its %s-<timestamp>%s files", when, name, m.base, m.ext)
 		}
 	}
 	// decoys survive
